@@ -9,7 +9,7 @@ from ..val import veq, clone, drop_nulls, has_marker
 ID = 'C02'
 NEED_BINS = True
 SIZES = {'quick': 10000, 'thorough': 1500000}
-REQUIRED_EVENTS = ['layer_docs_agreed', 'selection_events_checked', 'isolation_reruns', 'file_streams_agreed']
+REQUIRED_EVENTS = ['layer_docs_agreed', 'selection_events_checked', 'isolation_reruns', 'file_streams_agreed', 'native_scalar_selections']
 RULE = ('base streams of 1-4 documents, then 1-3 layers of 1-3 documents each; a layer document is derived by labelled edits from the model '
         'state of one of the documents it will hit, with or without document-level $match (one hit / many / none / {} / $invert / null=append), '
         'parents = the previous layer\'s documents (file-style) or a subset. Executed through successive MergeDocument calls with the hook '
@@ -92,7 +92,82 @@ def base_doc(rng, k):
     return d
 
 
+NATIVE = {'date': ['2024-01-15', '2024-01-16', '1999-12-31'], 'time': ['07:32:00', '07:32:01', '23:59:59.5'],
+          'local-datetime': ['1979-05-27T07:32:00', '1979-05-27T07:32:01', '2001-02-03T04:05:06'],
+          'datetime': ['1979-05-27T07:32:00Z', '1979-05-27T07:32:01Z', '1979-05-27T00:32:02-07:00']}
+
+
+def gen_native(rng):
+    """A TOML base stream whose documents carry native TOML scalars (dates, times), and a TOML layer that selects by one."""
+    kind = rng.choice(sorted(NATIVE))
+    pool = NATIVE[kind]
+    nested = rng.random() < 0.3
+    docs = [{'name': 'n%d' % k, 'when': rng.choice(pool), 'n': k} for k in range(rng.randint(1, 4))]
+    return {'native': {'kind': kind, 'docs': docs, 'pattern': rng.choice(pool), 'invert': rng.random() < 0.25, 'nested': nested,
+                       'with_name': rng.random() < 0.2}, 'labels': ['native:' + kind]}
+
+
+def native_toml(doc, nested, extra=''):
+    if nested:
+        return 'name = "%s"\nn = %d\n%s\n[meta]\nwhen = %s\n' % (doc['name'], doc['n'], extra, doc['when'])
+    return 'name = "%s"\nn = %d\nwhen = %s\n%s\n' % (doc['name'], doc['n'], doc['when'], extra)
+
+
+def check_native(ctx, case, res):
+    import os
+    from ..core import cli, crashed
+    from .. import ser
+    nv = case['native']
+    docs, pat, nested = nv['docs'], nv['pattern'], nv['nested']
+    d = ctx.casedir()
+    with open(os.path.join(d, 'a.toml'), 'w') as f:
+        f.write('---\n'.join(native_toml(x, nested) for x in docs))
+    lines = ['["$match"]']
+    if nv['invert']:
+        lines.append('"$invert" = true')
+    if nv['with_name']:
+        lines.append('name = "%s"' % docs[0]['name'])
+    if nested:
+        lines += ['["$match".meta]', 'when = %s' % pat]
+    else:
+        lines.append('when = %s' % pat)
+    lines += ['', '[patch]', 'ok = true', 'at = %s' % pat, '']
+    with open(os.path.join(d, 'a.l1.toml'), 'w') as f:
+        f.write('\n'.join(lines))
+    hit = [(x['when'] == pat and (not nv['with_name'] or x['name'] == docs[0]['name'])) != nv['invert'] for x in docs]
+    res.nontrivial = True
+    res.labels.add('native-targets:%d' % sum(hit))
+    r = cli([ctx.bin('bkl'), '-f', 'toml', 'a.l1.toml'], cwd=d)
+    res.execs += 1
+    detail = {'base': open(os.path.join(d, 'a.toml')).read(), 'layer': '\n'.join(lines)}
+    ctx.cleanup_case(d)
+    if crashed(r.rc, r.err):
+        return res.violate('crash', 'bkl died rc=%s: %s' % (r.rc, r.err[-300:].decode('utf-8', 'replace')), **detail)
+    if not any(hit):
+        if r.rc == 0:
+            return res.violate('select', 'a $match on a native TOML value that no document carries was accepted', out=r.out.decode('utf-8', 'replace'), **detail)
+        res.ev('native_scalar_selections')
+        return res
+    if r.rc != 0:
+        return res.violate('select', 'a $match on a native TOML value carried by %d document(s) was rejected: %s' % (sum(hit), r.err[-300:].decode('utf-8', 'replace')), **detail)
+    want_text = '---\n'.join(native_toml(x, nested, '[patch]\nok = true\nat = %s\n' % pat if h and nested else '') +
+                             ('[patch]\nok = true\nat = %s\n' % pat if h and not nested else '') for x, h in zip(docs, hit))
+    # nested: [patch] must come before [meta] in my text?  order of tables is irrelevant to the parser
+    try:
+        got = ser.parse('toml', r.out.decode())
+        want = ser.parse('toml', want_text)
+    except Exception as e:
+        return res.violate('select', 'output is not TOML: %s' % e, out=r.out.decode('utf-8', 'replace'), **detail)
+    if got != want:
+        return res.violate('select', 'documents selected by a native TOML value are not exactly the ones carrying it', out=r.out.decode('utf-8', 'replace'),
+                           expect=want_text, **detail)
+    res.ev('native_scalar_selections')
+    return res
+
+
 def gen_case(rng, i, tier):
+    if rng.random() < 0.03:
+        return gen_native(rng)
     labels = set()
     st = Stream()
     steps = []
@@ -187,6 +262,12 @@ def fixed_cases(tier):
 
 
 def shrink(case):
+    if 'native' in case:
+        return
+    yield from _shrink(case)
+
+
+def _shrink(case):
     steps = case['steps']
     for i in range(len(steps) - 1, 0, -1):
         rid = steps[i]['id']
@@ -202,6 +283,8 @@ def shrink(case):
 def check_case(ctx, case):
     res = Result()
     res.labels.update(case.get('labels', []))
+    if 'native' in case:
+        return check_native(ctx, case, res)
     steps = case['steps']
     ops = []
     for s in steps:
